@@ -96,6 +96,35 @@ def flaky_sink_sequence(run: lib.Run, pol, req, cfg, rr) -> None:
             return
 
 
+def sink_swap_sequence(run: lib.Run, pol, req, cfg) -> None:
+    """one long-lived Guard whose sinks are replaced between evaluations (sync → async → sync → none → sync): every evaluation still
+    emits exactly one audit record and one metric pair to the sinks that are configured at that moment"""
+    evs: list = []
+    try:
+        g = real.make_guard(pol, {k: v for k, v in cfg.items() if k not in ("logger", "metrics", "sink_mode")}, evs)
+    except Exception:  # noqa: BLE001
+        return
+    run.count("sink-swap-sequence")
+    plan = [("sync", real.RecLogger, real.RecMetrics), ("async", real.AsyncRecLogger, real.AsyncRecMetrics),
+            ("sync", real.RecLogger, real.RecMetrics), ("none", None, None), ("async", real.AsyncRecLogger, real.AsyncRecMetrics)]
+    for k, (kind, L, M) in enumerate(plan):
+        g.logger_sink = L(evs) if L else None
+        g.metrics = M(evs) if M else None
+        del evs[:]
+        try:
+            d = real.call_guard(g, req, "async" if k % 2 else "sync")
+        except Exception:  # noqa: BLE001
+            return
+        out = real.render_decision(d, list(evs))
+        why = audit_ok(out, {"logger": L is not None, "metrics": M is not None})
+        if L is None and evs:
+            why = "events emitted although no sink is configured"
+        if why:
+            run.spec_failures.append({"policy": pol, "request": req, "cfg": cfg, "impl": out, "model": None, "sequence_index": k, "sinks": kind,
+                                      "spec": "sinks replaced on a long-lived Guard: " + why})
+            return
+
+
 def run_cases(run: lib.Run, audit: dict, scale: int = 1):
     quick = run.tier == "quick"
     consts = audit["facts"]["consts"]
@@ -133,6 +162,8 @@ def run_cases(run: lib.Run, audit: dict, scale: int = 1):
                 run.spec_failures.append({**case, "spec": why})
         if "ok" in out and i % 6 == 1:
             flaky_sink_sequence(run, pol, req, cfg, r)
+        if "ok" in out and i % 12 == 2:
+            sink_swap_sequence(run, pol, req, cfg)
         # repeated evaluation with a cache (hit, and hit after an obligation flip) + raising sinks
         if "ok" in out and i % 4 == 0:
             evs: list = []
